@@ -202,8 +202,32 @@ def slices(opi: int, i: int, j: int, x: int, y: int, z: int, v1: int, v2: int) -
     return finish(True, True)
 
 
+def types_mapping_proxy(d):
+    import types
+
+    return types.MappingProxyType(dict(d))
+
+
 CMP = [("eq", operator.eq), ("ne", operator.ne), ("lt", operator.lt), ("le", operator.le), ("gt", operator.gt), ("ge", operator.ge)]
-OPERANDS = ["plain", "same-class", "other-class", "nested-child"]
+OPERANDS = ["plain", "same-class", "other-class", "nested-child", "plain-tuple", "plain-foreign"]
+
+
+class _Seq:
+    """A user Sequence with the given elements (never equal to a list for built-ins)."""
+
+    def __init__(self, items):
+        self._i = list(items)
+
+    def __len__(self):
+        return len(self._i)
+
+    def __getitem__(self, k):
+        return self._i[k]
+
+
+import collections as _collections
+
+_Seq = type("_Seq", (_collections.abc.Sequence,), dict(_Seq.__dict__))
 
 
 def compare(ci: int, n1: int, n2: int, x: int, y: int, v1: int, v2: int) -> bool:
@@ -228,8 +252,16 @@ def compare(ci: int, n1: int, n2: int, x: int, y: int, v1: int, v2: int) -> bool
         right = {"p": v1, "s": v2} if n2 == 2 else ({"p": v1} if n2 == 1 else {})
     f.write(env, "r", left)
     lobj = f.make(env, tkind, "r")
+    rplain = None
     if okind == "plain":
         robj = copy_tree(right)
+    elif okind == "plain-tuple":
+        # a non-list Sequence (tuple) / a dict subclass as operand
+        robj = tuple(right) if tkind == "list" else _collections.OrderedDict(right)
+        rplain = tuple(right) if tkind == "list" else _collections.OrderedDict(right)
+    elif okind == "plain-foreign":
+        robj = _Seq(right) if tkind == "list" else types_mapping_proxy(right)
+        rplain = robj
     elif okind == "same-class":
         f.write(env, "r2", right)
         robj = f.make(env, tkind, "r2")
@@ -241,7 +273,7 @@ def compare(ci: int, n1: int, n2: int, x: int, y: int, v1: int, v2: int) -> bool
         f.write(env, "r2", {"c": right})
         robj = f.make(env, "dict", "r2")["c"]
     try:
-        want = ("ok", cmp[1](copy_tree(left), copy_tree(right)))
+        want = ("ok", cmp[1](copy_tree(left), copy_tree(right) if rplain is None else rplain))
     except Exception as e:
         want = ("exc", e)
     try:
@@ -270,6 +302,155 @@ def compare(ci: int, n1: int, n2: int, x: int, y: int, v1: int, v2: int) -> bool
                 return finish(True, True)
             return finish(True, fail(lambda: f"plain {right!r} {cmp[0]} JSON{tkind.capitalize()}({left!r}): library {got2!r}, built-in {want2!r}"))
     return finish(True, True)
+
+
+# ----------------------------------------------------------------------------------
+# value-kind sensitivity: what is stored at a position (null, falsy scalars, strings --
+# which are Sequences --, containers) and what replaces it, through every entry point
+# that looks at the old or the new value
+# ----------------------------------------------------------------------------------
+OLD_KINDS = ["int", "null", "zero", "false", "empty-str", "str", "list", "dict", "empty-list", "empty-dict", "nested-list"]
+NEW_KINDS = OLD_KINDS + ["tuple", "same"]
+OLD_QUICK = ["int", "null", "zero", "empty-str", "str", "list", "dict", "nested-list"]
+NEW_QUICK = ["int", "null", "str", "empty-str", "list", "dict", "tuple", "same"]
+
+
+def make_kind(kind, x):
+    return {
+        "int": x, "null": None, "zero": 0, "false": False, "empty-str": "", "str": "yz", "list": [x], "dict": {"p": x},
+        "empty-list": [], "empty-dict": {}, "nested-list": [[x, 2], 3], "tuple": (x, 2),
+    }[kind]
+
+
+def _rd(t, v):
+    t.clear()
+    t.update(v)
+
+
+def _rl(t, v):
+    t[:] = list(v)
+
+
+# (name, library call, built-in call); `t` holds the old value at key "p" / index 0
+REPLACE_DICT = [
+    ("setitem", lambda t, v: t.__setitem__("p", v), None),
+    ("update_map", lambda t, v: t.update({"p": v}), None),
+    ("update_kwargs", lambda t, v: t.update(p=v), None),
+    ("update_pairs", lambda t, v: t.update([("p", v)]), None),
+    ("reset", lambda t, v: t.reset({"p": v, "s": 1}), lambda t, v: _rd(t, {"p": v, "s": 1})),
+    ("setdefault", lambda t, v: t.setdefault("p", v), None),
+    ("get_default", lambda t, v: t.get("p", v), None),
+    ("pop_default", lambda t, v: t.pop("p", v), None),
+    ("pop", lambda t, v: t.pop("p"), None),
+    ("getitem", lambda t, v: t["p"], None),
+    ("contains", lambda t, v: "p" in t, None),
+    ("eq_self", lambda t, v: t == {"p": v, "s": 1}, None),
+    ("values_count", lambda t, v: list(t.values()).count(v), None),
+]
+REPLACE_LIST = [
+    ("setitem", lambda t, v: t.__setitem__(0, v), None),
+    ("setslice", lambda t, v: t.__setitem__(slice(0, 1), [v]), None),
+    ("reset", lambda t, v: t.reset([v, 1]), lambda t, v: _rl(t, [v, 1])),
+    ("reset_shorter", lambda t, v: t.reset([v]), lambda t, v: _rl(t, [v])),
+    ("getitem", lambda t, v: t[0], None),
+    ("contains", lambda t, v: v in t, None),
+    ("count", lambda t, v: t.count(v), None),
+    ("index", lambda t, v: t.index(v), None),
+    ("remove", lambda t, v: t.remove(v), None),
+    ("eq_self", lambda t, v: t == [v, 1], None),
+    ("insert", lambda t, v: t.insert(0, v), None),
+    ("append", lambda t, v: t.append(v), None),
+    ("extend_value", lambda t, v: t.extend(v), None),
+    ("iadd_value", lambda t, v: t.__iadd__(v), None),
+]
+
+
+def replace(ei: int, ok: int, nk: int, x: int, v: int) -> bool:
+    """
+    post: _
+    """
+    env = get_env().reset()
+    cells = [(f, tk, d) for f in fams() for tk in WHICH for d in (0, 1)]
+    f, tkind, depth = cells[hlib.PART % len(cells)]
+    table = REPLACE_DICT if tkind == "dict" else REPLACE_LIST
+    nsl = max(1, hlib.NPARTS // len(cells))
+    ent = pick(table[(hlib.PART // len(cells))::nsl], ei)
+    deep = hlib.TIER == "thorough"
+    okind = pick(OLD_KINDS if deep else OLD_QUICK, ok)
+    nkind = pick(NEW_KINDS if deep else NEW_QUICK, nk)
+    if ent is None or okind is None or nkind is None:
+        return finish(False, True)
+    if not deep:
+        v = 5  # one symbolic leaf (x) in the quick tier: fewer equality forks
+    old = make_kind(okind, x)
+    new = copy_tree(old) if nkind == "same" else make_kind(nkind, v)
+    T = {"p": old, "s": 1} if tkind == "dict" else [old, 1]
+    if depth == 0:
+        doc, path, which = T, (), tkind
+    else:
+        doc, path, which = {"a": T, "b": 9}, ("a",), "dict"
+    ref = copy_tree(doc)
+    f.write(env, "r", doc)
+    root = f.make(env, which, "r")
+    target = root
+    for k in path:
+        target = target[k]
+    name, lib_fn, ref_fn = ent
+    ref_fn = ref_fn or lib_fn
+    new_ref = copy_tree(list(new)) if isinstance(new, tuple) and name not in ("contains", "count", "index", "remove", "eq_self", "values_count") else (new if isinstance(new, tuple) else copy_tree(new))
+    try:
+        r_lib = ("ok", lib_fn(target, new if isinstance(new, tuple) else copy_tree(new)))
+    except hlib.Crash:
+        raise
+    except Exception as e:
+        r_lib = ("exc", e)
+    try:
+        r_ref = ("ok", ref_fn(at(ref, path), new_ref))
+    except Exception as e:
+        r_ref = ("exc", e)
+    if name == "pop" and r_ref[0] == "exc" and r_lib[0] == "ok":
+        r_ref = ("ok", None)
+    case(f.cls(which).__name__, tkind, f"depth{depth}", name, okind, nkind)
+    label = f"{f.cls(which).__name__} {tkind} at depth {depth}: {name} with old value {old!r} and argument {new!r}"
+    if r_lib[0] != r_ref[0]:
+        return finish(True, fail(lambda: f"{label}: library {r_lib!r}, built-in {r_ref!r}"))
+    if r_lib[0] == "exc":
+        if not hlib.exc_class_ok(r_lib[1], r_ref[1]):
+            return finish(True, fail(lambda: f"{label}: library raises {r_lib[1]!r}, built-in {r_ref[1]!r}"))
+    elif name not in ("iadd_value",) and not same_kind_eq(plain(r_lib[1]), plain(r_ref[1])):
+        return finish(True, fail(lambda: f"{label}: library returned {plain(r_lib[1])!r}, built-in {plain(r_ref[1])!r}"))
+    want = plain(ref)
+    got = root()
+    res = f.read(env, "r")
+    if not same_kind_eq(got, want):
+        return finish(True, fail(lambda: f"{label}: content {got!r}, built-in {want!r}"))
+    if res is MISSING or not same_kind_eq(res, want):
+        return finish(True, fail(lambda: f"{label}: resource {res!r}, built-in {want!r}"))
+    return finish(True, True)
+
+
+def same_kind_eq(a, b):
+    """eq_plain that also tells a str from a list of characters and null from missing."""
+    if isinstance(a, str) != isinstance(b, str):
+        return False
+    if (a is None) != (b is None):
+        return False
+    if isinstance(a, dict) and isinstance(b, dict):
+        if len(a) != len(b):
+            return False
+        for k in a:
+            if k not in b or not same_kind_eq(a[k], b[k]):
+                return False
+        return True
+    if isinstance(a, (list, tuple)) and isinstance(b, (list, tuple)):
+        if len(a) != len(b):
+            return False
+        for p, q in zip(a, b):
+            if not same_kind_eq(p, q):
+                return False
+        return True
+    return eq_plain(a, b)
+
 
 
 def prog2(op1: int, op2: int, i: int, x: int, y: int, v1: int) -> bool:
@@ -324,12 +505,14 @@ def plan(tier):
         return [
             {"fn": "refine", "nparts": 6 * 4, "timeout": 300},
             {"fn": "slices", "nparts": 14, "timeout": 300},
-            {"fn": "compare", "nparts": 8, "timeout": 300},
+            {"fn": "compare", "nparts": 12, "timeout": 300},
+            {"fn": "replace", "nparts": 16, "timeout": 300},
         ]
     return [
         {"fn": "refine", "nparts": 18 * 4, "timeout": 1500},
         {"fn": "slices", "nparts": 14, "timeout": 1500},
-        {"fn": "compare", "nparts": 8, "timeout": 1500},
+        {"fn": "compare", "nparts": 12, "timeout": 1500},
+        {"fn": "replace", "nparts": 48, "timeout": 1500},
         {"fn": "prog2", "nparts": 32, "timeout": 1500},
     ]
 
@@ -342,9 +525,15 @@ def smoke(tier):
     for part in range(14):
         for opi in range(3):
             out.append(("slices", (opi, -1, 2, 1, 2, 3, 4, 5), part, 14))
-    for part in range(8):
+    for part in range(12):
         for ci in range(6):
-            out.append(("compare", (ci, 2, 1, 1, 2, 1, 3), part, 8))
+            out.append(("compare", (ci, 2, 1, 1, 2, 1, 3), part, 12))
+            out.append(("compare", (ci, 2, 2, 1, 2, 1, 2), part, 12))
+    nrep = 16 if tier == "quick" else 48
+    for part in range(nrep):
+        for ei in range(4):
+            for ok in range(8):
+                out.append(("replace", (ei, ok, (ok * 5 + ei) % 8, 1, 2), part, nrep))
     return out
 
 
@@ -376,4 +565,4 @@ ASSUMPTIONS = [
     "documented deviations encoded in the reference: dict.pop(missing) -> None; key order compared order-insensitively; popitem compared against the popped key; tuples compare as lists; rejected inputs are C11's",
     "repr()/str() are executed natively on concrete operands (CrossHair replaces them by unconstrained strings otherwise)",
 ]
-OUTSIDE = ["lists longer than 3, indices beyond [-3,3]", "programs longer than 2 steps", "float leaves"]
+OUTSIDE = ["lists longer than 3, indices beyond [-3,3]", "programs longer than 2 steps", "float leaves", "value kinds other than the 11+2 listed in OLD_KINDS/NEW_KINDS"]
